@@ -21,7 +21,7 @@ def skip_table(prog):
     """cursor operations (consume / step back / restore) and counter steps of the skipping code with their control predicates"""
     from . import sym, guards
     A = sym.Analyzer(prog, opaque=[r"parser::.*"])
-    fids = [f for f in prog.bodies if mir.strip_generics(f) in SKIP_FNS]
+    fids = diag.with_new_functions(prog, [f for f in prog.bodies if mir.strip_generics(f) in SKIP_FNS])
 
     def eff(b, S, ev):
         nm = mir.strip_generics(ev[1])
